@@ -20,8 +20,8 @@ ASSUMPTIONS = ["order is certified on the executed problem classes (genericity o
                "class tableaus are float64: exactness threshold 1e-10 relative (RK14(12) published coefficients are ~3e-13 accurate)"]
 STEPS = [1.0, -0.75, 1.5]
 TAU = {"float64": 1e-10, "longdouble": 1e-10, "float32": 3e-4}
-FLOORS = {"quick": {"exact_probes_accepted": 150, "embedded_probes": 9, "richardson_probes_accepted": 12, "slope_probes": 20, "global_order_probes": 15, "global_order_runs_retuned": 15},
-          "thorough": {"exact_probes_accepted": 900, "embedded_probes": 27, "richardson_probes_accepted": 200, "slope_probes": 60, "global_order_probes": 45, "global_order_runs_retuned": 15}}
+FLOORS = {"quick": {"exact_probes_accepted": 150, "embedded_probes": 9, "richardson_probes_accepted": 12, "slope_probes": 20, "global_order_probes": 15, "global_order_runs_retuned": 15, "exact_retry_probes": 30, "exact_retry_probes_with_a_rejected_attempt": 12, "richardson_probes_at_loose_tolerance": 10},
+          "thorough": {"exact_probes_accepted": 900, "embedded_probes": 27, "richardson_probes_accepted": 200, "slope_probes": 60, "global_order_probes": 45, "global_order_runs_retuned": 15, "exact_retry_probes": 30, "exact_retry_probes_with_a_rejected_attempt": 12, "richardson_probes_at_loose_tolerance": 30}}
 CASE_TIMEOUT = 900
 HARMONIC_ONLY = ("ABAs5o6HSolver", "BABs9o7HSolver")
 
@@ -74,6 +74,15 @@ def gen_cases(tier, seed):
             g = p if n == 2 else p + 1
             cases.append(dict(kind="richardson", method=b, levels=n, grade=g, dtype="float64", pseed=1000 * seed + n,
                               cost=(1 + (g / 4.0) ** 2 * (1 if M[b]["explicit"] else 6)) * (2 ** (n - 1))))
+            if M[b]["explicit"]:
+                # the order of the extrapolated step does not depend on the tolerances the wrapper was built with (loose ones included)
+                cases.append(dict(kind="richardson", method=b, levels=n, grade=g, dtype="float64", pseed=1000 * seed + n + 50, tol=float(rng.choice([1e-1, 1e-2, 1e-4])),
+                                  cost=(1 + (g / 4.0) ** 2) * (2 ** (n - 1))))
+    # exactness holds for every step size, hence also for a step that the method's own controller first rejects and then retries shorter, and for
+    # the second call on an integrator object that continues bit-exactly where its first step ended (cached end slopes, FSAL)
+    for name in [n for n in names if M[n]["adaptive"] and not (M[n]["stages"] >= 10 and not M[n]["explicit"])]:
+        for sgn in (1, -1):
+            cases.append(dict(kind="exact_retry", method=name, grade=M[name]["order"], sign=sgn, pseed=1000 * seed + int(rng.integers(1000)), cost=3 if M[name]["explicit"] else 12))
     # "halving the step divides the global error by about 2^p": whole runs through OdeSystem with the fixed-step explicit methods,
     # over spans of every sign pattern (away from the origin, towards it, across it) and both directions
     gspans = [(0.0, 1.0), (1.0, 0.0), (-1.5, -0.5), (-0.5, -1.5), (-1.0, 0.5), (0.5, -1.0), (1.5, 0.5), (2.0, 3.0)]
@@ -89,13 +98,15 @@ def gen_cases(tier, seed):
 
 
 # ---------------------------------------------------------------------------------------------
-def _one_exact_step(cls_factory, prob, dtype, h, splitting, tight=True):
+def _one_exact_step(cls_factory, prob, dtype, h, splitting, tight=True, tol=None):
     """Run the REAL integrator once; returns (accepted, dTime(float), y1(longdouble array), info)."""
     import desolver as de
     dt = dtype_of(dtype)
     kw = {}
     if tight and dtype != "float32":
         kw = dict(rtol=1e-13, atol=1e-13)
+    if tol is not None:
+        kw = dict(rtol=tol, atol=tol)
     intg = cls_factory((prob.dim,), dtype=dt, **kw)
     util.passthrough_adaptation(intg)
     rhs = de.DiffRHS(prob.rhs)
@@ -118,7 +129,7 @@ def _exact_defect(prob, dT, y1):
     return float(np.max(err)), inc
 
 
-def _probe_grade(factory, grade, pseed, dtype, nper, separable, linear, rec, label):
+def _probe_grade(factory, grade, pseed, dtype, nper, separable, linear, rec, label, tol=None):
     prob = GradedPoly(grade, pseed, nper=nper, separable=separable, linear=linear)
     worst = 0.0
     accepted = 0
@@ -127,7 +138,7 @@ def _probe_grade(factory, grade, pseed, dtype, nper, separable, linear, rec, lab
         # the probe is repeated at h/2, h/4 (an accepted step of at least half the requested length is used as is)
         got = None
         for h in (h0, h0 / 2, h0 / 4):
-            ok, dT, y1, info = _one_exact_step(factory, prob, dtype, h, separable)
+            ok, dT, y1, info = _one_exact_step(factory, prob, dtype, h, separable, tol=tol)
             if not ok:
                 rec.bump("probe_not_accepted")
                 continue
@@ -160,7 +171,54 @@ def run_case(spec):
         return _run_richardson_sequence(spec)
     if kind == "global":
         return _run_global(spec)
+    if kind == "exact_retry":
+        return _run_exact_retry(spec)
     raise ValueError(kind)
+
+
+def _run_exact_retry(spec):
+    import desolver as de
+    from vf.instrument import StepLog
+    M = util.methods()
+    info = M[spec["method"]]
+    g = spec["grade"]
+    dt = np.dtype("float64")
+    rec = util.Rec(sig="exact_retry|%s|%d|%d" % (spec["method"], spec["sign"], spec["pseed"]))
+    feats = {"method": spec["method"], "family": info["family"], "declared": info["order"], "grade": g, "sign": spec["sign"], "kind": "exact_retry"}
+    worst = 0.0
+    for trial in range(4):
+        prob = GradedPoly(g, spec["pseed"] + 13 * trial, nper=1)
+        intg = info["cls"]((prob.dim,), dtype=dt, rtol=1e-11, atol=1e-11)        # the method's OWN controller decides
+        slog = StepLog(intg)
+        rhs = de.DiffRHS(prob.rhs)
+        y0 = np.array([float(v) for v in prob.y0], dtype=dt)
+        t0 = np.asarray(float(prob.t0), dtype=dt)
+        try:
+            _, (dT1, dY1) = intg(rhs, t0, y0, {}, np.asarray(spec["sign"] * 0.02, dtype=dt))
+            t1 = t0 + dT1
+            y1 = y0 + dY1
+            n1 = len(slog.attempts)
+            _, (dT2, dY2) = intg(rhs, t1, y1, {}, np.asarray(spec["sign"] * (1.25 + 0.25 * trial), dtype=dt))
+        except Exception as e:
+            rec.bump("exact_retry_not_accepted_" + type(e).__name__)
+            continue
+        second = slog.attempts[n1:]
+        rec.bump("exact_retry_probes")
+        if len(second) >= 2:
+            rec.bump("exact_retry_probes_with_a_rejected_attempt")
+        y2 = y1.astype(np.longdouble) + np.asarray(dY2, dtype=np.longdouble)
+        elapsed = Fraction(float(t1)) - Fraction(float(t0)) + Fraction(float(dT2))
+        ex = np.array([float(v) for v in prob.exact(elapsed)], dtype=np.longdouble)
+        d = float(np.max(np.abs(y2 - ex) / (1 + np.abs(ex))))
+        worst = max(worst, d)
+        rec.nontrivial = True
+        if d > 1e-9:
+            rec.violate("declared_order_exactness", "step_after_a_continued_call_or_a_rejected_attempt_is_not_exact", dict(feats, rejected_attempts=len(second) - 1),
+                        defect=d, attempts=[a_["h"] for a_ in second][:6], dT=float(dT2))
+            break
+    rec.worst("exact_retry_defect", worst)
+    rec.sample = {"spec": spec, "defect": worst}
+    return rec.out()
 
 
 def _first_bad(cls, g, spec, sep, linear, rec, tau):
@@ -249,8 +307,10 @@ def _run_richardson(spec):
     rec = util.Rec(sig="richardson|%s|%d|%d" % (spec["method"], n, spec["pseed"]))
     factory = util.richardson(info["cls"], n)
     sep = info["splitting"]
-    worst, acc = _probe_grade(factory, g, spec["pseed"], spec["dtype"], 1, sep, False, rec, "rich")
+    worst, acc = _probe_grade(factory, g, spec["pseed"], spec["dtype"], 1, sep, False, rec, "rich", tol=spec.get("tol"))
     rec.bump("richardson_probes_accepted", acc)
+    if spec.get("tol"):
+        rec.bump("richardson_probes_at_loose_tolerance", acc)
     rec.nontrivial = acc > 0
     rec.worst("richardson_defect", worst)
     rec.sample = {"spec": {k: spec[k] for k in ("kind", "method", "levels", "grade")}, "defect": worst}
